@@ -7,6 +7,8 @@ for d in seeded/*/; do
   d=${d%/}
   prop=$(/venv/bin/python -c "import json;print(json.load(open('$d/meta.json'))['property'])")
   [ -n "${ONLY:-}" ] && [[ "$prop" != $ONLY ]] && continue
-  out=$(selftest/run_mutant.sh $d/patch.diff $prop quick ${1:-0})
+  # a change written against an older /repo commit and neutralised by a later fix is replayed on that commit (meta: base_commit)
+  base=$(/venv/bin/python -c "import json;print(json.load(open('$d/meta.json')).get('base_commit','HEAD'))")
+  out=$(BASE=$base selftest/run_mutant.sh $d/patch.diff $prop quick ${1:-0})
   echo "$out" | sed "s#patch.diff#$(basename $d)#" | cut -c1-330
 done
